@@ -25,10 +25,8 @@
 (*                  computed from the ARRAYS (as the code does)                         *)
 (*       Rebuild    TabularMarkovDecisionProcess.from_matrices on those arrays, and the  *)
 (*                  arrays of the rebuilt MDP                                           *)
-(*     variant = 1 is the machine of the code as it stands (every initial state is put   *)
-(*     on the frontier, also absorbing ones); variant = 0 is what the statement asks     *)
-(*     for.  The property invariants are stated for variant 0; variant 1 is explored so  *)
-(*     that a deviation of the real code can be attributed precisely.                   *)
+(*     Absorbing states of the initial support are never put on the frontier            *)
+(*     ("successors of absorbing states not expanded" holds for initial states too).    *)
 (* (P) invariants at the bottom.                                                        *)
 EXTENDS MDP, Json, IOUtils
 
@@ -46,9 +44,8 @@ LeastClosed(m) ==
   LET cands == {X \in SUBSET St(m) : InitSupp(m) \subseteq X /\ Closed(m, X)} IN
   CHOOSE X \in cands : \A Y \in cands : X \subseteq Y
 
-\* initial frontier: the statement does not expand absorbing states (variant 0); the code as it
-\* stands puts the whole initial support on the frontier (variant 1)
-Frontier0(m, v) == IF v = 0 THEN InitSupp(m) \ ExplAbs(m) ELSE InitSupp(m)
+\* initial frontier: absorbing states are never expanded, also not when they are initial states
+Frontier0(m) == InitSupp(m) \ ExplAbs(m)
 Limit(c, vis) == c # INF /\ Cardinality(vis) >= c
 
 \* every set reachable_states(max_states = c) may return: expansion stops as soon as at least c
@@ -58,7 +55,7 @@ CutRuns(m, c, fr, vis) ==
   IF fr = {} \/ Limit(c, vis) THEN {vis}
   ELSE UNION { LET new == Edges(m, s) \ vis IN
                CutRuns(m, c, (fr \ {s}) \cup (new \ ExplAbs(m)), vis \cup new) : s \in fr }
-CutResults(m, c, v) == CutRuns(m, c, Frontier0(m, v), InitSupp(m))
+CutResults(m, c) == CutRuns(m, c, Frontier0(m), InitSupp(m))
 
 \* keyed views, straight from the functional definition
 OT(m, s, a, t) == IF m.avail[s][a] = 1 THEN m.P[s][a][t] ELSE 0                 \* over PD
@@ -69,7 +66,7 @@ FullT(m) == [s \in St(m) |-> [a \in Ac(m) |-> [t \in St(m) |-> OT(m, s, a, t)]]]
 FullR(m) == [s \in St(m) |-> [a \in Ac(m) |-> [t \in St(m) |-> OR(m, s, a, t)]]]
 FullSAR(m) == [s \in St(m) |-> [a \in Ac(m) |-> OSAR(m, St(m), s, a)]]
 
-\* signature predicates of the corner inputs
+\* corner inputs named by the quantifier (only counted in the evidence; no verdict depends on them)
 GhostOutside(m, L) == {s \in L \cap ExplAbs(m) : ~(Edges(m, s) \subseteq L)}
 ZeroOutside(m, L)  == {s \in L : \E a \in Avail(m, s) : \E t \in Entries(m, s, a) : m.P[s][a][t] = 0 /\ t \notin L}
 AbsInitGhost(m)    == {s \in InitSupp(m) \cap ExplAbs(m) : ~(Edges(m, s) \subseteq Reach(m))}
@@ -147,18 +144,16 @@ SameArrays(m, ls, T, Rw, Am, d, x) ==
   /\ {ls[i] : i \in x.d.reach}  = d.reach
 
 \* ------------------------------------------------------------------ machine
-VARIABLES iid, cut, variant, phase, frontier, visited, lst, T, Rw, Am, der, rb
-vars == <<iid, cut, variant, phase, frontier, visited, lst, T, Rw, Am, der, rb>>
+VARIABLES iid, cut, phase, frontier, visited, lst, T, Rw, Am, der, rb
+vars == <<iid, cut, phase, frontier, visited, lst, T, Rw, Am, der, rb>>
 M == Batch[iid]
 LSet == Range(lst)
 
 Init ==
   /\ iid \in 1..Len(Batch)
   /\ cut \in Range(Batch[iid].cuts) \cup {INF}
-  \* the two variants only differ when the initial support contains an absorbing state
-  /\ variant \in (IF InitSupp(Batch[iid]) \cap ExplAbs(Batch[iid]) = {} THEN {0} ELSE {0, 1})
   /\ phase = "reach"
-  /\ frontier = Frontier0(Batch[iid], variant)
+  /\ frontier = Frontier0(Batch[iid])
   /\ visited = InitSupp(Batch[iid])          \* S0 = {e for e, p in initial_state_dist().items() if p > 0}
   /\ lst = <<>> /\ T = <<>> /\ Rw = <<>> /\ Am = <<>> /\ der = <<>> /\ rb = <<>>
 
@@ -170,19 +165,19 @@ Pop(s) ==
          new  == succ \ visited
      IN /\ frontier' = (frontier \ {s}) \cup (new \ ExplAbs(M))
         /\ visited' = visited \cup new
-  /\ UNCHANGED <<iid, cut, variant, phase, lst, T, Rw, Am, der, rb>>
+  /\ UNCHANGED <<iid, cut, phase, lst, T, Rw, Am, der, rb>>
 
 ReachEnd ==
   /\ phase = "reach" /\ (frontier = {} \/ Limit(cut, visited))
-  /\ phase' = IF cut = INF /\ variant = 0 THEN "list" ELSE "cutdone"
-  /\ UNCHANGED <<iid, cut, variant, frontier, visited, lst, T, Rw, Am, der, rb>>
+  /\ phase' = IF cut = INF THEN "list" ELSE "cutdone"
+  /\ UNCHANGED <<iid, cut, frontier, visited, lst, T, Rw, Am, der, rb>>
 
 \* state_list: the explicit list, or the reachable set in sorted order (abstract order = label order)
 MkList ==
   /\ phase = "list"
   /\ lst' = IF M.explicit = 1 THEN SeqOfSet(St(M), M.N) ELSE SeqOfSet(visited, M.N)
   /\ phase' = "rows"
-  /\ UNCHANGED <<iid, cut, variant, frontier, visited, T, Rw, Am, der, rb>>
+  /\ UNCHANGED <<iid, cut, frontier, visited, T, Rw, Am, der, rb>>
 
 Extend(f, s, v) == [x \in DOMAIN f \cup {s} |-> IF x = s THEN v ELSE f[x]]
 FillRow ==
@@ -191,28 +186,28 @@ FillRow ==
        /\ T'  = Extend(T, s, RowT(M, LSet, s))
        /\ Rw' = Extend(Rw, s, RowR(M, LSet, s))
        /\ Am' = Extend(Am, s, RowA(M, s))
-  /\ UNCHANGED <<iid, cut, variant, phase, frontier, visited, lst, der, rb>>
+  /\ UNCHANGED <<iid, cut, phase, frontier, visited, lst, der, rb>>
 
 Derive ==
   /\ phase = "rows" /\ DOMAIN T = LSet
   /\ der' = Derived(M, LSet, T, Rw, Am, visited)
   /\ phase' = "derived"
-  /\ UNCHANGED <<iid, cut, variant, frontier, visited, lst, T, Rw, Am, rb>>
+  /\ UNCHANGED <<iid, cut, frontier, visited, lst, T, Rw, Am, rb>>
 
 Rebuild ==
   /\ phase = "derived"
   /\ rb' = AllArrays(FromMatrices(M, lst, T, Rw, Am, der))
   /\ phase' = "done"
-  /\ UNCHANGED <<iid, cut, variant, frontier, visited, lst, T, Rw, Am, der>>
+  /\ UNCHANGED <<iid, cut, frontier, visited, lst, T, Rw, Am, der>>
 
 Next == (\E s \in St(M) : Pop(s)) \/ ReachEnd \/ MkList \/ FillRow \/ Derive \/ Rebuild
 Spec == Init /\ [][Next]_vars
 
 \* ------------------------------------------------------------------ emission (pipeline A)
-SetsOf(m, v) == [i \in 1..Len(m.cuts) |-> CutResults(m, m.cuts[i], v)]
+SetsOf(m) == [i \in 1..Len(m.cuts) |-> CutResults(m, m.cuts[i])]
 ViewRecord(m) ==
   [iid |-> iid, kind |-> "views",
-   reach |-> visited, reach1 |-> CHOOSE X \in CutResults(m, INF, 1) : TRUE,
+   reach |-> visited,
    lst |-> lst,
    T |-> FullT(m), R |-> FullR(m), A |-> m.avail, sar |-> FullSAR(m), p0 |-> m.p0,
    lsar |-> [i \in 1..Len(lst) |-> der.sar[lst[i]]],
@@ -221,36 +216,35 @@ ViewRecord(m) ==
    ghostout |-> GhostOutside(m, Reach(m)), zeroout |-> ZeroOutside(m, Reach(m)),
    absinit |-> AbsInitGhost(m),
    const |-> ConstCompat(m),
-   cuts0 |-> SetsOf(m, 0), cuts1 |-> SetsOf(m, 1),
+   cuts |-> SetsOf(m),
    vstar |-> IF m.plan = 1 THEN OptimalValue(m) ELSE <<>>]
 Emit ==
   /\ phase = "done" => PrintT(ToJson(ViewRecord(M)))
-  /\ phase = "cutdone" => PrintT(ToJson([iid |-> iid, kind |-> "cut", cut |-> cut, variant |-> variant,
+  /\ phase = "cutdone" => PrintT(ToJson([iid |-> iid, kind |-> "cut", cut |-> cut,
                                         visited |-> visited]))
 
 \* ------------------------------------------------------------------ (P) properties
-V0 == variant = 0
 \* (P1) breadth-first search invariant: everything found is reachable, absorbing states never wait for
 \*      expansion, and every expanded state has all its positive-probability successors in the set
 ReachInv ==
-  V0 => /\ frontier \subseteq visited /\ InitSupp(M) \subseteq visited
-        /\ visited \subseteq Reach(M)
-        /\ frontier \cap ExplAbs(M) = {}
-        /\ \A s \in visited \ (frontier \cup ExplAbs(M)) : Edges(M, s) \subseteq visited
+  /\ frontier \subseteq visited /\ InitSupp(M) \subseteq visited
+  /\ visited \subseteq Reach(M)
+  /\ frontier \cap ExplAbs(M) = {}
+  /\ \A s \in visited \ (frontier \cup ExplAbs(M)) : Edges(M, s) \subseteq visited
 \* (P2) without a cut-off the search ends in the least fixed point: closed, and no proper subset that
 \*      contains the initial support is closed
 ReachFixpoint ==
-  (V0 /\ cut = INF /\ phase # "reach") =>
+  (cut = INF /\ phase # "reach") =>
      /\ visited = Reach(M) /\ visited = LeastClosed(M)
      /\ Closed(M, visited)
      /\ \A X \in SUBSET visited : (InitSupp(M) \subseteq X /\ Closed(M, X)) => X = visited
 \* (P3) cut-off semantics: a result is one of the oracle's; it is complete when the limit is not reached
 CutSemantics ==
   (phase = "cutdone") =>
-     /\ visited \in CutResults(M, cut, variant)
-     /\ V0 => /\ visited \subseteq Reach(M)
-              /\ (cut = INF \/ Cardinality(Reach(M)) <= cut) => visited = Reach(M)
-              /\ cut # INF => Cardinality(visited) >= MinI(cut, Cardinality(Reach(M)))
+     /\ visited \in CutResults(M, cut)
+     /\ visited \subseteq Reach(M)
+     /\ (cut = INF \/ Cardinality(Reach(M)) <= cut) => visited = Reach(M)
+     /\ cut # INF => Cardinality(visited) >= MinI(cut, Cardinality(Reach(M)))
 \* (P4) the list has no duplicates and is the reachable set unless given explicitly
 ListOk ==
   (phase \in {"rows", "derived", "done"}) =>
